@@ -9,7 +9,7 @@ from ..core import unhx
 THEOREMS = ['interval_exact', 'inverted_is_empty', 'filter_eq_delete', 'innermost_wins', 'keywords', 'summary_selects_day', 'summary_date_selects_day', 'day_count_advances', 'yesterday_is_previous_day', 'parsed_date_is_calendar_day', 'instants_order_is_calendar_order', 'period_is_calendar_interval', 'day_number_reads_back', 'summary_date_is_that_day']
 LEVEL = 'proof'
 RULE = ('logs with days in any order and repeated dates x every (begin, end) over a 5-day window incl. absent / equal / inverted / outside x '
-        '{reg, bal, csv log, print, report totals / quantity / unresolved} x flag position {global, sub-command, both with different values} x keywords '
+        '{reg, bal, csv log, print, report totals / quantity / unresolved} x flag position {global, sub-command, both with different values, one bound on each level} x keywords '
         '(today, yesterday, last7, last30) against --today, also across daylight-saving switches of the process zone (New York, Berlin, Lord Howe) x summary DATE x TZ {UTC, America/New_York, Pacific/Kiritimati} (in-process zone and the real binary); '
         'metamorphic oracle: output with a period = output on the file with the other days deleted; dates shown by reg / print / csv log / summary = dates of the selected days as written in the log; non-trivial = a bound that falls on a logged day or an unsorted / repeated log; '
         'distinct by (log hash, command, bounds, position, zone)')
@@ -51,7 +51,7 @@ def gen(g, nlogs, tier):
             if layout != '2006/01/02':
                 base_g['dateFormat'] = layout
             for path, has_sub in (CMDS if tier == 'thorough' else r.sample(CMDS, 3)):
-                pos = r.choice(['global', 'sub', 'both'] if has_sub else ['global'])
+                pos = r.choice(['global', 'sub', 'both', 'begin global, end sub', 'end global, begin sub'] if has_sub else ['global'])
                 gf, sf = dict(base_g), {}
                 if pos == 'global':
                     if b:
@@ -63,6 +63,17 @@ def gen(g, nlogs, tier):
                         sf['begin'] = fmt(b)
                     if e:
                         sf['end'] = fmt(e)
+                elif pos == 'begin global, end sub':
+                    # each bound on a different level: neither may be lost
+                    if b:
+                        gf['begin'] = fmt(b)
+                    if e:
+                        sf['end'] = fmt(e)
+                elif pos == 'end global, begin sub':
+                    if e:
+                        gf['end'] = fmt(e)
+                    if b:
+                        sf['begin'] = fmt(b)
                 else:
                     # both: the global flags carry *different* values, the sub-command's must win
                     gf['begin'] = fmt(DAYS[4])
